@@ -56,10 +56,16 @@ def ref_groups(toks, emptypos):
             if p != len(seg):
                 raise ValueError("trailing")
             groups.append(("ok", spec))
+        except _Unclear:
+            groups.append(("unclear",))
         except ValueError:
             groups.append(("bad",))
         i = end + 1
     return groups, False
+
+
+class _Unclear(Exception):
+    """the group contains '(' label whitespace ')' under brackets_emptypos: not covered by the claim"""
 
 
 def _skip(seg, p):
@@ -85,6 +91,8 @@ def _node(seg, p, root, emptypos, cnt):
         cnt[0] += 1
         return ("T", label, "EMPTY", "--", None, "--", cnt[0]), p + 1
     q = _skip(seg, p)
+    if emptypos and label is not None and q > p and q < len(seg) and seg[q][0] == ")":
+        raise _Unclear()
     if q < len(seg) and seg[q][0] == "t":
         if q == p or label is None:
             raise ValueError("word without whitespace or label")
@@ -139,6 +147,8 @@ def automaton(k, emptypos, firstid, **kw):
     exp = []
     bad = False
     for g in groups:
+        if g[0] == "unclear":
+            return "~"      # outside the claim
         if g[0] == "bad":
             bad = True
             break
